@@ -894,7 +894,7 @@ class LinearInfiniteRTransform(BaseTransform):
         """
         self.set_maximum_parameter_b(x)
         alpha = (self._rmax - self._rmin) / self.b
-        return np.ones(x.size) * alpha
+        return alpha if isinstance(x, Number) else np.ones(x.size) * alpha
 
     def deriv2(self, x: np.ndarray):
         r"""Compute the second derivative of linear transformation.
@@ -910,7 +910,7 @@ class LinearInfiniteRTransform(BaseTransform):
             Second derivative of transformation at x.
 
         """
-        return np.zeros(x.size)
+        return 0 if isinstance(x, Number) else np.zeros(x.size)
 
     def deriv3(self, x: np.ndarray):
         r"""Compute the third derivative of linear transformation.
@@ -926,7 +926,7 @@ class LinearInfiniteRTransform(BaseTransform):
             Third derivative of transformation at x.
 
         """
-        return np.zeros(x.size)
+        return 0 if isinstance(x, Number) else np.zeros(x.size)
 
     def inverse(self, r: np.ndarray):
         r"""Compute the inverse of linear transformation.
